@@ -70,7 +70,7 @@ func runC13(c *mon.Ctx) {
 			}
 		}
 	}
-	nh := c.Pick(168, 1600)
+	nh := c.Pick(168, 3200)
 	for h := 0; h < nh; h++ {
 		if !c.Mine(h) {
 			continue
